@@ -77,7 +77,27 @@ type FnCtx struct {
 	assumed  map[string]bool // trusted/assumed things used
 	warnings []string
 	depth    int
+	wfSet    map[string]bool
 	stack    []*ssa.Function
+}
+
+// wantWF: are heap well-formedness axioms requested for heap h in this function?
+func (c *FnCtx) wantWF(h string) bool {
+	if c.g.WFAxioms {
+		return true
+	}
+	if c.contract == nil || len(c.contract.WF) == 0 {
+		return false
+	}
+	if c.wfSet == nil {
+		c.wfSet = map[string]bool{}
+		for _, m := range c.contract.WF {
+			for _, hn := range c.g.resolveHeapSpec(c.top.Pkg.Pkg, m) {
+				c.wfSet[hn] = true
+			}
+		}
+	}
+	return c.wfSet[h]
 }
 
 func (c *FnCtx) fresh(prefix string) string {
@@ -670,7 +690,9 @@ func (g *Gen) elemHeaps(et types.Type) []string {
 
 // allocID allocates a fresh object/array id.
 func (f *frame) allocID(st *State) string {
-	id := f.c.define("a", SInt, st.next)
+	// a declared constant (not a macro), so that it can appear inside quantifier patterns
+	id := f.c.declare("a", SInt)
+	f.c.emit(fmt.Sprintf("(assert (= %s %s))", id, st.next))
 	st.next = f.c.define("next", SInt, fmt.Sprintf("(+ %s 1)", id))
 	return id
 }
@@ -761,7 +783,7 @@ func (f *frame) havocHeaps(st *State, names []string) {
 		}
 		n := f.c.declare(h, f.c.g.TE.heapSort[h])
 		st.heaps[h] = n
-		if ax := wfHeapAxiom(n, f.c.g.TE.heapSort[h], st.next); ax != "" && f.c.g.WFAxioms {
+		if ax := wfHeapAxiom(n, f.c.g.TE.heapSort[h], st.next); ax != "" && f.c.wantWF(h) {
 			f.c.emit(ax)
 		}
 	}
